@@ -71,6 +71,7 @@ var regKeys = [][]byte{[]byte("r1"), []byte("r2")}
 
 func main() {
 	r := ev.Start("C10", "exploration")
+	r.Supervise() // a real engine runs in-process: its death is an outcome, observed by a supervising parent
 	r.Rule("concurrent client histories on a real 3-node cluster (4 map keys touched by puts, deletes, bounded range deletes and transactions incl. empty-branch and read-only ones; 2 register keys touched only by single-key ops), " +
 		"node 3 lagging through a stalled apply path; each run = one recorded history judged offline. Non-trivial: a run with >=50 linearizable reads served by the lagging node while it was behind and >=20 empty-branch transactions; distinct by run seed. " +
 		"Runs containing an ambiguous (failed / timed out) write are discarded as inconclusive")
